@@ -3,7 +3,7 @@ import LlirModel.Drv.Core2Ops
 /-! Line-protocol descriptors of M-Core-3 functions.
     `core3.print <ret ty> <hexname> <params> <blocks>`
     ident: `N<hex>` | `I<num>`;  params: `-` or `<ty>~<ident>` joined by `|`;  blocks joined by `/`, a block is `<ident>^<inst>^...^<term>`;
-    inst: `<ident or _>:<row>:<args>` (switch, invoke, landingpad: `…:<args>:<continuation lines>`, see parseExtD) with args joined by `!` (or `-`): `T<ty>` | `P<ty>=<operand>` | `V<operand>` | `L<ident>` | `R` | `R<ty>=<operand>` | `H<operand>~<ident>&...` (phi incoming list) | `K<n>,<n>…` (index path) | `A` / `A<n>` (no / an alignment) | `F<i>,<i>…` (flag keywords by position in the row's list) | `W<i>` (the keyword of a `kw` slot by position: atomic ordering, atomicrmw operation) | `O` / `O<i>` (no / an optional keyword: the ordering of an atomic load / store) | `G<ty>=<operand>&…` (typed index list);
+    inst: `<ident or _>:<row>:<args>` (switch, invoke, landingpad: `…:<args>:<continuation lines>`, see parseExtD) with args joined by `!` (or `-`): `T<ty>` | `P<ty>=<operand>` | `V<operand>` | `L<ident>` | `R` | `R<ty>=<operand>` | `H<operand>~<ident>&...` (phi incoming list) | `K<n>,<n>…` (index path) | `A` / `A<n>` (no / an alignment) | `F<i>,<i>…` (flag keywords by position in the row's list) | `W<i>` (the keyword of a `kw` slot by position: atomic ordering, atomicrmw operation) | `O` / `O<i>` (no / an optional keyword: the ordering of an atomic load / store) | `X<ident>` (a bare local value) | `Y` / `Y<ident>` (parent pad `none` / a local) | `B<ident>,<ident>…` (label list) | `U` / `U<ident>` (unwind to caller / to a label) | `G<ty>=<operand>&…` (typed index list);
     operand: `%<ident>` | `#<const descriptor>` | `@<hexname>` (a global variable or function of the module: M-Whole only) -/
 namespace Llir.Drv
 open Llir Llir.Types Llir.Core2 Llir.Core3
@@ -40,6 +40,13 @@ def parseArgD (s : String) : Option Arg :=
   | 'G' :: r => ((String.ofList r).splitOn "&").mapM (fun (it : String) => parseTyOperand it) |>.map .tyvals
   | ['F'] => some (.flags [])
   | 'F' :: r => ((String.ofList r).splitOn ",").mapM (fun (x : String) => x.toNat?) |>.map .flags
+  | 'X' :: r => (parseIdentD (String.ofList r)).map .loc
+  | ['Y'] => some (.pad none)
+  | 'Y' :: r => (parseIdentD (String.ofList r)).map fun i => .pad (some i)
+  | ['B'] => some (.labs [])
+  | 'B' :: r => ((String.ofList r).splitOn ",").mapM (fun (x : String) => parseIdentD x) |>.map .labs
+  | ['U'] => some (.unwind none)
+  | 'U' :: r => (parseIdentD (String.ofList r)).map fun i => .unwind (some i)
   | 'W' :: r => (String.ofList r).toNat?.map .kw
   | ['O'] => some (.okw none)
   | 'O' :: r => (String.ofList r).toNat?.map fun n => .okw (some n)
